@@ -284,6 +284,7 @@ class OpGen:
         "p_sentinel": 0.05,
         "p_nested_target": 0.08,
         "p_alias": 0.0,
+        "any_extra": None,
         "weights": {"new": 2, "scalar": 6, "element": 8, "toplevel": 3, "set": 3, "del": 1.5,
                     "get": 1, "deepcopy": 1, "mutate": 0},
         "max_insts": 4,
@@ -322,6 +323,9 @@ class OpGen:
         return kw
 
     def good(self, kind):
+        extra = self.p.get("any_extra")
+        if kind == "any" and extra and self.src.chance(0.25):
+            return self.src.choice(extra)
         return good_value(self.src, kind)
 
     def gen_new(self, role=None):
@@ -342,7 +346,7 @@ class OpGen:
                     else:
                         kw[name] = v
                 continue
-            if s.chance(0.45):
+            if s.chance(0.9 if a.get("bad_default") else 0.45):
                 if s.chance(self.p["p_bad"] * 0.5):
                     kw[name] = s.choice(bad_values(a["kind"]))
                 else:
@@ -652,6 +656,11 @@ class OpGen:
         elif which == "transform":
             k = s.randint(1, min(2, len(names))) if names else 0
             chosen = s.sample(names, k) if k else []
+            pairs = [(d, n) for n in names for d in (info[n].get("flags", {}).get("invalidated_by") or [])
+                     if d in names and d != n]
+            if pairs and s.chance(0.4):
+                # two attributes that interact: the dependency first, then the attribute it invalidates
+                chosen = list(s.choice(pairs))
             badpos = s.randint(0, len(chosen) - 1) if (bad and chosen) else -1
             for j, n in enumerate(chosen):
                 kd = info[n]["kind"]
@@ -706,7 +715,11 @@ class OpGen:
 
     def gen_get(self, iid, inst, role):
         s = self.src
-        names = list(self.w.info(role).keys()) + [p["name"] for p in self.w.spec["host"].get("props", [])]
+        props = [p["name"] for p in self.w.spec["host"].get("props", [])]
+        if props and s.chance(0.6):
+            # reading a property is what fills its cache slot (unmanaged instance state that copies must not share)
+            return {"op": "get", "on": {"i": iid}, "a": s.choice(props)}
+        names = list(self.w.info(role).keys()) + props
         return {"op": "get", "on": {"i": iid}, "a": s.choice(names)}
 
     def gen_nested_write(self, iid, inst, role):
